@@ -23,13 +23,21 @@ ERROR awkward_ListArray_getitem_next_range_carrylength(
                                   start != kSliceNone, stop != kSliceNone,
                                   length);
     if (step > 0) {
+      // (j += step may not be computed past regular_stop: a huge step would
+      // wrap around)
       for (int64_t j = regular_start;  j < regular_stop;  j += step) {
         *carrylength = *carrylength + 1;
+        if (step >= regular_stop - j) {
+          break;
+        }
       }
     }
     else {
       for (int64_t j = regular_start;  j > regular_stop;  j += step) {
         *carrylength = *carrylength + 1;
+        if (step <= regular_stop - j) {
+          break;
+        }
       }
     }
   }
